@@ -71,6 +71,27 @@ def propagation_trace(case: dict) -> dict:
     return res
 
 
+def fresh_interpreter_outcomes(case: dict, runs: int = 3) -> List[str]:
+    """The same script in `runs` fresh interpreters (different hash seeds, shifted environment): outcome + file hash."""
+    import os
+    import subprocess
+
+    code = (
+        "import json,sys,hashlib\n"
+        "sys.path.insert(0, %r)\n"
+        "from cbv import prop_common as pc\n"
+        "case = json.loads(sys.stdin.read())\n"
+        "res, mesh = pc.run_write(case)\n"
+        "print(res['outcome'], hashlib.sha1(res.get('text','').encode()).hexdigest())\n"
+    ) % str(core.ROOT)
+    outs = []
+    for k in range(runs):
+        env = dict(os.environ, PYTHONHASHSEED=str(k * 7919 + 1), CBV_PAD="x" * (1 + 257 * k))
+        p = subprocess.run(["/venv/bin/python", "-c", code], input=json.dumps(case), capture_output=True, text=True, env=env, timeout=120)
+        outs.append((p.stdout.strip().splitlines() or ["crash " + p.stderr[-200:]])[-1])
+    return outs
+
+
 class C02(C01):
     pid = "C02"
     props_module = "CBV.Props.C02"
@@ -92,7 +113,14 @@ class C02(C01):
 
     def gen_cases(self, rng: random.Random, tier: str) -> List[dict]:
         cases = super().gen_cases(rng, tier)
-        return cases[: (300 if tier == "quick" else 3000)]
+        cases = cases[: (300 if tier == "quick" else 3000)]
+        # run-to-run determinism proper: a few scripts are also executed in fresh interpreters
+        k = 0
+        for c in cases:
+            if c["kind"] in ("double", "sandwich") and k < (2 if tier == "quick" else 24):
+                c["fresh_interpreters"] = True
+                k += 1
+        return cases
 
     def run_impl(self, case: dict) -> Any:
         obs = pc.prepare(case)
@@ -111,6 +139,8 @@ class C02(C01):
         perm = pc.prepare(case, order=order, rots=rots)
         obs["perm"] = {"outcome": perm["outcome"], "counts": geometric_counts(case, perm, rots), "order": order, "rots": rots}
         obs["geo_counts"] = geometric_counts(case, obs)
+        if case.get("fresh_interpreters"):
+            obs["fresh"] = fresh_interpreter_outcomes(case)
         return obs
 
     def requests(self, case: dict, impl: Any) -> List[str]:
@@ -177,6 +207,8 @@ class C02(C01):
                     "what": f"first run {oc}/{impl.get('text_sha')}, second run {ag['outcome']}/{ag.get('text_sha')}",
                 }
             )
+        if "fresh" in impl and len(set(impl["fresh"])) > 1:
+            out.append({"site": "Mesh.write:fresh-interpreters-disagree", "what": str(impl["fresh"])})
         pm = impl["perm"]
         if exp != "any" and pm["outcome"] != "hang":
             if pm["outcome"] != oc:
